@@ -80,10 +80,27 @@ def run(ctx):
     from . import c01, c02
     ctx.guarded("R11.3", "lines", lambda: c02.lines(_Remap(ctx, "R11.3")))
     ctx.guarded("R11.3", "body", lambda: c01.body(_Remap(ctx, "R11.3")))
+    ctx.rule("R11.5", "nothing of a request can survive outside the connection: the crate keeps no thread-local or process-wide mutable state (no std::thread::LocalKey access, no std::sync::OnceLock/Mutex/atomic static), so what the reset re-initialises is all there is")
+    ctx.guarded("R11.5", "no-global-state", lambda: no_global_state(ctx, "R11.5"))
     ctx.rule("R11.4", "every byte taken from the stream after a rejection reaches the parsers: under try_read the stream is touched only by the one receive of read_bytes, whose bytes land in the window the parsers are given (= C03 R03.1, C01 R01.6) -- a clean-up that reads and drops what is queued also drops the well-formed requests behind the rejected one")
     from . import c03
     ctx.guarded("R11.4", "stream", lambda: c03.stream(_Remap(ctx, "R11.4")))
     ctx.guarded("R11.4", "window", lambda: c01.window(_Remap(ctx, "R11.4")))
+
+
+def no_global_state(ctx, rule):
+    facts = ctx.facts
+    bad = []
+    n = 0
+    for f in facts.fns.values():
+        for bb, t in f.calls():
+            n += 1
+            p = t["callee"].get("path") or ""
+            if p.startswith(("std::thread::LocalKey", "std::thread::local_impl", "std::sync::OnceLock", "std::sync::LazyLock", "std::sync::Mutex", "std::sync::RwLock", "std::cell::OnceCell", "std::sync::atomic")) or "::thread_local" in p:
+                bad.append((f.name, p, bb))
+    for (fname, p, bb) in bad[:6]:
+        ctx.fail(rule, "no-global-state|%s|%s" % (fname, p.rsplit("::", 2)[-2] if p.count("::") >= 2 else p), "%s calls %s: state that outlives a request (and a connection) is not re-initialised by the parser reset" % (fname, p), facts.fns[fname].loc(bb))
+    ctx.ob(rule, "no-global-state", not bad, "no thread-local / lock / once-cell / atomic access among the crate's %d call sites" % n)
 
 
 def initial_values(ctx):
